@@ -203,6 +203,9 @@ func doDump(spec, goos string) {
 		os.Exit(2)
 	}
 	x := &an.Extractor{InModule: load.InModule, MaxDepth: 4, NoInline: map[*ssa.Function]bool{}}
+	if os.Getenv("DUMP_OPAQUE") != "" {
+		x.MaxDepth = 0
+	}
 	parts := strings.SplitN(spec, ":", 2)
 	var fns []*ssa.Function
 	for _, fn := range p.SrcFuncs() {
@@ -215,6 +218,28 @@ func doDump(spec, goos string) {
 		fmt.Println("=== ", fn.String())
 		fn.WriteTo(os.Stdout)
 		fi := an.Info(fn)
+		if os.Getenv("DUMP_PATHS") != "" {
+			ps, err := x.Paths(fn, an.PathOpts{EmitCut: true, InlinePaths: func(f *ssa.Function) bool { return os.Getenv("DUMP_INLINE") != "" && load.InModule(f) }})
+			fmt.Println("paths:", len(ps), err)
+			for i, pp := range ps {
+				kind := "return"
+				if pp.Panic != nil {
+					kind = "panic"
+				}
+				if pp.Cut {
+					kind = fmt.Sprintf("cut→b%d", pp.CutTo.Index)
+				}
+				var as []string
+				for _, a := range pp.Atoms {
+					as = append(as, a.String())
+				}
+				fmt.Printf("#%d %s: %s\n", i, kind, strings.Join(as, " ∧ "))
+				for j, r := range pp.Results {
+					fmt.Printf("      res[%d] = %s\n", j, r)
+				}
+			}
+			continue
+		}
 		for _, r := range an.Returns(fn) {
 			fmt.Printf("-- return at %s block %d guard:\n", p.Pos(r.Pos()), r.Block().Index)
 			for _, c := range fi.Guard(r.Block()) {
